@@ -13,7 +13,7 @@ def _reduce_angle(degrees: float) -> float:
     For tiny negative angles ``%`` rounds up to 360 itself.
     """
     reduced = degrees % 360.
-    return reduced if reduced < 360. else 0.
+    return 0. if reduced >= 360. else reduced
 
 
 class Transform2D(EventDispatcher):
